@@ -468,8 +468,10 @@ def evaluate(run, want=None):
                 # rounding of a two-pass estimate: the mean is exact to eps*|x|, so the centred data carry an error eps*scale
                 # (entry by entry, with each sensor's own magnitude: sensors of one series may differ by many orders of magnitude)
                 Dk = np.abs(np.asarray(Xk, dtype=np.float64) - mu[None, :])
-                dcol = np.max(Dk, axis=0)
                 xcol = np.max(np.abs(np.asarray(Xk, dtype=np.float64)), axis=0)
+                # (a column that is constant within the cluster is centred to rounding residue of the order eps*|x| - or to exact
+                # zeros, depending on the order in which the mean was summed: never less than that residue in the bound)
+                dcol = np.maximum(np.max(Dk, axis=0), 8 * gauss.EPS * xcol)
                 sd = np.sqrt(np.abs(np.diag(S)))
                 atol = 1e-9 * np.outer(sd, sd) + 256 * gauss.EPS * (np.outer(xcol, dcol) + np.outer(dcol, xcol)) + 1e-300
                 if not np.all(np.abs(got_S - S) <= atol + 1e-9 * np.abs(S)):
